@@ -107,8 +107,9 @@ def nontrivial(s):
 def make_case(g, draw, pad=True):
     s = g.generate(draw, long_digits=(draw(9) == 0))
     vs = []
-    for _ in range(4):
-        kind, v = variants.variant(s, draw)
+    for i_ in range(5):
+        # single transformations, and one chain of two or three in a row (a trailing zero AND an odd blank AND other case)
+        kind, v = variants.variant(s, draw) if i_ < 4 else variants.variant_chain(s, draw, 2 + draw(2))
         if v != s and kind is not None:
             vs.append([kind, v])
     if pad and draw(5) == 0:
